@@ -476,6 +476,15 @@ func (m *machine) transitions(w *World, fn *ssa.Function) ([]*transition, string
 						h = hh
 					}
 				}
+				// ... or a plain function of the module that is handed the machine first and answers
+				// with a state (a state called directly, or a piece split off one)
+				if h == nil {
+					if g := w.funcByKey(r.S); g != nil && len(g.Blocks) > 0 && w.inPkgs(g) && len(g.Params) >= 1 && len(r.A) == len(g.Params) {
+						if pt, ok := g.Params[0].Type().(*types.Pointer); ok && types.Identical(pt.Elem(), m.recvT) && g.Signature.Results().Len() >= 1 && types.Identical(g.Signature.Results().At(0).Type(), m.stateT) {
+							h = g
+						}
+					}
+				}
 				if h == nil {
 					base.to = "?"
 					out = append(out, base)
